@@ -2,13 +2,13 @@
 
    foc        XPath/FetchCreate.v   model of fetch_or_create_by_xpath / _create_by_xpath / _is_unambiguously_locatable /
                                     _derived_attributes as they are at /repo HEAD (after the fix commits 0ffad18, b721705,
-                                    f228380); tied on every run by harness/props/c15.py: outcome and the complete tree
+                                    f228380, 8d47eb7, 5732bc1); tied on every run by harness/props/c15.py: outcome and the complete tree
                                     afterwards on trees x paths x namespaces
    eval       XPath/Eval.v          the evaluator mirror of C06
    vis        the caller's ambient default filter (append_children adds after the last visible child): all theorems
               hold for every vis
-   m          ONE mapping for query and creation: `namespaces` is None or a non-empty mapping (an empty mapping makes
-              the code use two different ones: open finding, C15_empty_mapping_refuted)
+   m          ONE mapping for query and creation: `namespaces` is None or a non-empty mapping (since fix 5732bc1 the code builds the same mapping for both;
+              C15_fault_unchanged and the refusals are stated for two arbitrary mappings)
 
    The domain (decidable, FetchCreateFacts.step_good): every step is child::name-test with attribute = 'literal'
    predicates joined by `and` / stacked, every prefix declared and not empty, the required attribute values
@@ -55,10 +55,10 @@ Theorem C15_minimal : forall vis root m ab ss q t0 t' p,
 Proof. exact foc_minimal. Qed.
 Print Assumptions C15_minimal.
 
-(* every exception leaves the tree unchanged *)
-Theorem C15_fault_unchanged : forall vis root m ab ss q t0 t' f,
-  forallb (step_good m) ss = true -> subtree root q = Some t0 ->
-  foc vis root m m [LocationPath ab ss] (0 :: q) = FocFault t' f -> t' = root.
+(* every exception leaves the tree unchanged: for EVERY expression (accepted or not), both mappings, every filter;
+   the context node is a node of the tree *)
+Theorem C15_fault_unchanged : forall vis root me mc e q t0 t' f,
+  subtree root q = Some t0 -> foc vis root me mc e (0 :: q) = FocFault t' f -> t' = root.
 Proof. exact foc_fault_unchanged. Qed.
 Print Assumptions C15_fault_unchanged.
 
@@ -77,9 +77,9 @@ Theorem C15_accepted_shape : forall e, locatable e = true ->
     Forall (fun s => exists p l ps, s = LocationStep AxChild (NameMatchTest p l) ps /\ forallb loc_expr ps = true) ss.
 Proof. exact locatable_shape. Qed.
 (* after a creation no exception is possible any more (every later step creates) *)
-Theorem C15_no_fault_after_creation : forall vis m r pos n, forallb (step_good m) r = true -> tkids n = [] -> pos <> [] ->
+Theorem C15_no_fault_after_creation : forall vis m r pos n, forallb loc_step r = true -> tkids n = [] -> pos <> [] ->
   exists n' p, create_in vis m r pos n = COk n' p.
-Proof. exact chain_no_fault. Qed.
+Proof. exact chain_no_fault_loc. Qed.
 Print Assumptions C15_no_fault_after_creation.
 
 (* ---- the hypotheses are satisfiable; the model's result is the tree the implementation leaves behind *)
@@ -110,17 +110,15 @@ Example C15_not_accepted_example :
   foc default_vis f_bad_tree f_bad_me f_bad_mc f_bad_expr [0%nat] = FocFault f_bad_tree (FRejected ValueError).
 Proof. vm_compute. reflexivity. Qed.
 
-(* ---- refutations outside the domain (open findings, findings.d/C15.json) *)
-(* an undeclared prefix in a LATER step: b is created and appended before the prefix of p:a is checked *)
-Theorem C15_fault_unchanged_refuted :
-  forallb (step_good f_late_me) (path_steps (hd (LocationPath false []) f_late_expr)) = false /\
-  exists t', foc default_vis f_late_tree f_late_me f_late_mc f_late_expr [0%nat] = FocFault t' (FRejected XPathEvaluationError) /\
-             content t' = content f_late_after /\ content t' <> content f_late_tree.
-Proof. split; [vm_compute; reflexivity|]. eexists. split; [vm_compute; reflexivity|]. split; [vm_compute; reflexivity|].
-  vm_compute. discriminate. Qed.
-(* namespaces = {}: the query uses the empty mapping, creation {"": self.namespace}: the {d}a that exists is returned
-   although the expression (un-prefixed = no namespace under the empty mapping) does not select it *)
-Theorem C15_empty_mapping_refuted : f_empty_me <> f_empty_mc /\
-  exists t' p, foc default_vis f_empty_tree f_empty_me f_empty_mc f_empty_expr [0%nat] = FocOk t' p /\
-               eval (docnode t') f_empty_me f_empty_expr (ctx_nd t' [0%nat]) = Ok [].
-Proof. split; [vm_compute; discriminate|]. eexists _, _. split; vm_compute; reflexivity. Qed.
+(* ---- regression examples for the two findings repaired last (8d47eb7, 5732bc1) *)
+(* an undeclared prefix in a LATER step is noticed before anything is created *)
+Example C15_late_prefix_fixed :
+  foc default_vis f_late_tree f_late_me f_late_mc f_late_expr [0%nat] = FocFault f_late_tree (FRejected XPathEvaluationError).
+Proof. vm_compute. reflexivity. Qed.
+(* namespaces = {}: one mapping for query and creation; `a` (no namespace) does not exist under <r xmlns="d"><a/></r>,
+   is created without namespace, and is what the expression selects afterwards *)
+Example C15_empty_mapping_fixed : f_empty_me = f_empty_mc /\
+  exists t', foc default_vis f_empty_tree f_empty_me f_empty_mc f_empty_expr [0%nat] = FocOk t' f_empty_pos /\
+             content t' = content f_empty_after /\
+             foc default_vis t' f_empty_me f_empty_mc f_empty_expr [0%nat] = FocOk t' f_empty_pos.
+Proof. split; [reflexivity|]. eexists. split; [vm_compute; reflexivity|]. split; vm_compute; reflexivity. Qed.
